@@ -1,6 +1,8 @@
 CONSTANTS
   NSlots = 3
   Depth = 3
+  BaseSet = "std"
+  Walk = FALSE
   Ops = {"New","Append","SetIndices","SetMaterial","SetMaterials","SetAttr","ModifyAttr","CopyAttr","Translate","Scale","Rotate","ApplyTRS","TranslateAttr","ScaleAttr","RotateAttr","CenterAttr","ToPointCloud","Unweld","RemoveUnreferenced","FlipWinding","Weld","RemoveNullFaces","Split","Filter","Crop","Repeat","Export","Scan"}
 SPECIFICATION Spec
 INVARIANTS Closed Laws Emit
